@@ -320,6 +320,14 @@ def check_colfile_hdf(case, rec=None):
                     rec.exclude("HDF group left with columns of unequal length after a partial overwrite")
                 continue
             ok, r = guard(columnfile.colfile_from_hdf, fn, g)
+            if not ok and isinstance(r, OSError) and "filter returned failure" in str(r) and \
+                    case.get("compression") == "lzf" and overwrite:
+                # h5py 3.16 / HDF5 2.0 in this sandbox cannot read back an lzf chunk that was overwritten in place
+                # after first holding incompressible data; reproduced with h5py alone (tools/h5py_lzf_overwrite.py)
+                if rec is not None:
+                    rec.exclude("h5py/HDF5 lzf filter fails to read a chunk overwritten in place (dependency defect, "
+                                "reproduced without ImageD11)")
+                continue
             if not ok:
                 fails.append(exc_failure("colfile_from_hdf", r))
                 continue
